@@ -66,7 +66,7 @@ def main(tier, only):
                               "VERIF_SKIP_FEATURES": ",".join(KNOWN_FEATURES.get("xml", []))}))
     PT = 8 if quick else 16
     for k in range(PT):
-        cfgs.append(dict(tag="tar.p%d" % k, only=["adq_tar"], timeout=to, env={"VERIF_PART": "%d/%d" % (k, PT), "VERIF_TAR2": "0" if quick else "1"},
+        cfgs.append(dict(tag="tar.p%d" % k, only=["adq_tar"], timeout=to, env={"VERIF_PART": "%d/%d" % (k, PT), "VERIF_TAR2": "0" if quick else "1", "VERIF_TAR_LINKS": "2" if quick else "4"},
                          allow_vacuous=True))
     nseeds, nsol = (2, 6) if quick else (6, 20)
     for fi, name in enumerate(("csv", "xml", "rest", "tar")):
@@ -77,7 +77,7 @@ def main(tier, only):
     run.bounds = dict(
         adequacy="csv/xml/rest: every derivation tree of the shipped grammar whose pre-order choice sequence, read as a mixed-radix numeral (left-to-right and "
                  "right-to-left child order), is below %d, with identifiers / fields / texts chosen from small macro sets; simple tar: every header built from "
-                 "3 names x padding 99/100/101 x type flag x 4 link names x padding x 4 checksum variants, 1 entry%s" % (TOP * 16 ** (D - 1), "" if quick else " or 2 entries (one of them the valid baseline)"),
+                 "3 names x padding 99/100/101 x type flag x %d link names x padding x 4 checksum variants, 1 entry%s" % (TOP * 16 ** (D - 1), 2 if quick else 4, "" if quick else " or 2 entries (one of them the valid baseline)"),
         xml_namespaces="element-level scenarios: outer element (4 prefixes x %s attributes from a menu of 8 incl. xmlns:a / xmlns:b / prefixed / xml: / xmlns:xmlns / default namespace) x 5 body kinds "
                        "(text, self-closing, child, child with text, two children) x inner element (4 prefixes x 1 attribute) x %d close-tag variants" % ("1" if quick else "2", 2 if quick else 4),
         solve="%d seeds x 5 cost settings (default, the repository's two tuned vectors, two extreme vectors) x instantiation limits %s, first %d solutions (tar: %d)" % (
